@@ -55,3 +55,12 @@ package xml
 //@   enter decMsg = message
 //@   leave decOK = (err == nil)
 //@   leave decObj = req
+//@
+//@ func xml.DecodeAttributeQuery
+//@   inline
+//@   names query, err
+//@   property C12
+//@   enter decCalls = decCalls + 1
+//@   enter decMsg = request
+//@   leave decOK = (err == nil)
+//@   leave decObj = query
